@@ -113,6 +113,14 @@ class Tree:
                 if last["k"] == "field" and last.get("name") == field and (last.get("adt") or "").endswith(adt):
                     yield s
 
+    def stores_like(self, pat, fn=None):
+        """stores (assignments through a projection) whose target place, rendered as an origin expression, matches `pat`
+        (finds stores through pattern-bound references such as `*num_acked_slices += 1` as well as direct field stores)"""
+        for s in self.sites(fn):
+            n = s.node
+            if n["k"] == "assign" and n["place"]["proj"] and re.search(pat, fmt(self.place(s))):
+                yield s
+
     def aggrs(self, adt, variant=None, fn=None):
         for s in self.sites(fn):
             n = s.node
@@ -322,3 +330,61 @@ class Tree:
         out = collections.defaultdict(list)
         for s in self.stores(adt, field): out[s.fn.path].append(s)
         return out
+
+
+# ---- path helpers (statement-position aware) -----------------------------------------------------------------------------
+def must_pass(fn, start, targets, stops=None, avoid_edges=()):
+    """True iff every normal path from program point `start` = (bb, idx) [exclusive] to a function return (or to one of the `stops`
+    points) passes through one of the `targets` points [(bb, idx)]. Panic exits do not count as paths. Returns (ok, witness_block)."""
+    tb = {}
+    for b, i in targets: tb.setdefault(b, []).append(i)
+    sb = {}
+    for b, i in (stops or []): sb.setdefault(b, []).append(i)
+    b0, i0 = start
+    def scan(b, lo):
+        """scanning block b from statement index lo (inclusive): 'hit' if a target comes first, 'stop' if a stop point comes first, else 'through'"""
+        cands = [(i, "hit") for i in tb.get(b, []) if i >= lo] + [(i, "stop") for i in sb.get(b, []) if i >= lo]
+        if not cands: return "through"
+        return min(cands)[1]
+    r = scan(b0, i0 + 1)
+    if r == "hit": return True, None
+    if r == "stop": return False, b0
+    if b0 in fn.returns: return False, b0
+    seen, st = set(), [(b0, s) for s in fn.succ[b0] if (b0, s) not in avoid_edges]
+    while st:
+        p, x = st.pop()
+        if x in seen: continue
+        seen.add(x)
+        r = scan(x, 0)
+        if r == "hit": continue
+        if r == "stop": return False, x
+        if x in fn.returns: return False, x
+        st.extend((x, s) for s in fn.succ[x] if (x, s) not in avoid_edges)
+    return True, None
+
+
+def natural_loops(fn):
+    """list of (head, body) for the natural loops of fn (back edge p->h with h dominating p); loops sharing a head are merged"""
+    if hasattr(fn, "_loops"): return fn._loops
+    loops = {}
+    for h in fn.reach:
+        for p in fn.pred[h]:
+            if p in fn.reach and fn.dominates(h, p):
+                body = loops.setdefault(h, {h})
+                st = [p]
+                while st:
+                    x = st.pop()
+                    if x not in body:
+                        body.add(x); st.extend(q for q in fn.pred[x] if q in fn.reach)
+    fn._loops = sorted(loops.items())
+    return fn._loops
+
+
+def innermost_loop(fn, bb):
+    best = None
+    for h, body in natural_loops(fn):
+        if bb in body and (best is None or len(body) < len(best[1])): best = (h, body)
+    return best
+
+
+def pos(site): return (site.bb, site.idx)
